@@ -54,6 +54,10 @@ struct Scn {
     all_transpositions: bool,
     /// also compute the identity trial in a child process
     child: bool,
+    /// events (mostly rejected ones) that trials with `after_other` also compute first on the
+    /// same thread: (kind, seed)
+    #[serde(default)]
+    pred: Vec<(Kind, u64)>,
 }
 
 fn permute(banks: &BankList, p: &Perm) -> BankList {
@@ -189,7 +193,21 @@ impl Check for C11Check {
                 trials.push(Trial { perm: Perm::Transpose(r.usize(0, 500)), hash_key: *r.pick(&k), twice: false, after_other: false });
             }
         }
-        serde_json::to_value(Scn { mode: mode.into(), seed, event, trials, all_transpositions: !heavy, child: i % 2 == 0 }).unwrap()
+        // predecessors on the same thread (separate stream: the other dimensions keep their values)
+        let mut rp = Rng::new(seed ^ 0x9e37_0001);
+        let mut pred = Vec::new();
+        for _ in 0..rp.usize(1, 2) {
+            let kind = if rp.chance(4, 5) {
+                Kind::EvFault {
+                    base: BaseEvent { run: *rp.pick(&[u32::MAX, u32::MAX, 11084, 9277]), seed: rp.next_u64(), n_wires: *rp.pick(&[1usize, 3, 9]), n_pad_msgs: rp.usize(1, 4), long_only: rp.chance(1, 2), pad_start: None, suppressed_only: false },
+                    slot: rp.usize(0, 32),
+                }
+            } else {
+                Kind::Extreme { wires: 2, wire_mode: rp.below(8) as u8, wire_len: 130, pad_msgs: rp.usize(1, 3), pad_mode: rp.below(8) as u8, pad_req: *rp.pick(&[101u16, 300, 511]), pad_channels: *rp.pick(&[3usize, 20, 79]), seam: false }
+            };
+            pred.push((kind, rp.next_u64()));
+        }
+        serde_json::to_value(Scn { mode: mode.into(), seed, event, trials, all_transpositions: !heavy, child: i % 2 == 0, pred }).unwrap()
     }
 
     fn run(&self, scenario: &Value, stats: &mut Stats) -> Outcome {
@@ -237,9 +255,16 @@ impl Check for C11Check {
             } else {
                 None
             };
+            let preds: Vec<(u32, BankList)> = if t.after_other { scn.pred.iter().map(|(k, s)| kind_banks(k, *s)).collect() } else { vec![] };
+            if !preds.is_empty() {
+                stats.probe("trials_after_rejected_or_extreme_events_on_same_thread");
+            }
             let res = with_hash_key(t.hash_key, || {
                 if let Some((orun, obanks)) = &other {
                     let _ = digest(*orun, obanks);
+                }
+                for (prun, pbanks) in &preds {
+                    let _ = digest(*prun, pbanks);
                 }
                 let a = digest(run, &pb);
                 let b = if twice { Some(digest(run, &pb)) } else { None };
@@ -274,7 +299,7 @@ impl Check for C11Check {
                         Some((d0, s0, t0)) => {
                             if *d0 != a.0 {
                                 let what = if (s0 == "Err") != (a.1 == "Err") { "ok-vs-err" } else { "bits-differ" };
-                                let cause = if t0.perm == t.perm { "hash-key-or-thread" } else if t0.hash_key == t.hash_key { "bank-order" } else { "bank-order-or-hash-key" };
+                                let cause = if t0.after_other != t.after_other && t0.perm == t.perm { "hash-key-or-what-the-thread-computed-before" } else if t0.perm == t.perm { "hash-key-or-thread" } else if t0.hash_key == t.hash_key { "bank-order" } else { "bank-order-or-hash-key" };
                                 viol.push(Violation {
                                     invariant: format!("C11.result-depends-on-{cause}"),
                                     signature: format!("{what}:{}", kind_name(&scn.event)),
@@ -363,6 +388,11 @@ impl Check for C11Check {
                 }
             }
             _ => {}
+        }
+        for i in 0..scn.pred.len() {
+            let mut s = scn.clone();
+            s.pred.remove(i);
+            out.push(serde_json::to_value(s).unwrap());
         }
         // simpler second trial: towards the identity / the same key
         if scn.trials.len() == 2 {
